@@ -504,4 +504,68 @@ theorem allPos_mulShape (ms ks : List Nat) (h : ms.length = ks.length) (hm : all
       simp only [mulShape, allPos_cons]
       exact ⟨Nat.mul_pos hm.1 hk.1, ih ks (by simpa using h) hm.2 hk.2⟩
 
+/-! ### mixed resolutions: every axis either coarsened or refined by an integer factor -/
+
+/-- per axis at most one of the two factors differs from 1 -/
+def pureAxes : List Nat → List Nat → Bool
+  | a :: as, b :: bs => (decide (a = 1) || decide (b = 1)) && pureAxes as bs
+  | [], [] => true
+  | _, _ => false
+
+theorem areaW_mixed (B kn kd i j : Nat) (hB : 0 < B) (hn : 0 < kn) (hd : 0 < kd) (h : kn = 1 ∨ kd = 1) :
+    areaW (B * kn) (B * kd) i j = if i / kn = j / kd then 1 / (kd : Rat) else 0 := by
+  rcases h with h | h
+  · subst h
+    have := areaW_refine B kd i j hB hd
+    simp only [Nat.mul_one, Nat.div_one] at this ⊢
+    rw [this]
+    by_cases e : j / kd = i
+    · simp [e]
+    · have e' : ¬ i = j / kd := fun x => e x.symm
+      simp [e, e']
+  · subst h
+    have := areaW_coarsen B kn i j hB hn
+    simp only [Nat.mul_one, Nat.div_one] at this ⊢
+    rw [this]; simp
+
+theorem overlapW_mixed : ∀ (B kn kd i j : List Nat), B.length = kn.length → B.length = kd.length →
+    allPos B = true → allPos kn = true → allPos kd = true → pureAxes kn kd = true →
+    i.length = B.length → j.length = B.length →
+    overlapW (mulShape B kn) (mulShape B kd) i j = if divIdx i kn = divIdx j kd then 1 / (prodL kd : Rat) else 0 := by
+  intro B
+  induction B with
+  | nil =>
+    intro kn kd i j h1 h2 _ _ _ _ hi hj
+    cases kn with
+    | nil => cases kd with
+      | nil =>
+        have : i = [] := List.eq_nil_of_length_eq_zero (by simpa using hi)
+        have : j = [] := List.eq_nil_of_length_eq_zero (by simpa using hj)
+        subst_vars; simp [overlapW, mulShape, divIdx, prodL]
+      | cons k ks => simp at h2
+    | cons k ks => simp at h1
+  | cons b B ih =>
+    intro kn kd i j h1 h2 hB hn hd hp hi hj
+    cases kn with
+    | nil => simp at h1
+    | cons n kn =>
+      cases kd with
+      | nil => simp at h2
+      | cons dd kd =>
+        cases i with
+        | nil => simp at hi
+        | cons a as =>
+          cases j with
+          | nil => simp at hj
+          | cons c cs =>
+            rw [allPos_cons] at hB hn hd
+            simp only [pureAxes, Bool.and_eq_true, Bool.or_eq_true, decide_eq_true_eq] at hp
+            have hdq : (dd : Rat) ≠ 0 := by have := hd.1; positivity
+            simp only [mulShape, overlapW, divIdx, prodL]
+            rw [areaW_mixed b n dd a c hB.1 hn.1 hd.1 hp.1,
+              ih kn kd as cs (by simpa using h1) (by simpa using h2) hB.2 hn.2 hd.2 hp.2 (by simpa using hi) (by simpa using hj)]
+            simp only [List.cons.injEq]
+            by_cases e1 : a / n = c / dd <;> by_cases e2 : divIdx as kn = divIdx cs kd <;> simp [e1, e2]
+            push_cast; field_simp
+
 end Darsia
